@@ -17,7 +17,7 @@ CLAIMS = {
  "C06": ("proof", "Exact-IEEE cut facts on handleABSEvent (proved for all int32 axis ranges and positions, every deadzone in [0,1)): normalised/centred/shaped/flipped value ranges and signs, physical end stops map to exactly +-1.0 and the rest position to exactly 0.0, and from there the transmitted bytes are exactly 127 / 0 / mid-scale / pitch-bend 8192 and 16383 (PitchBendEvent contract). 'Within one step' and 'monotonic' are relational float statements: bounded stand-in on the real code (labelled bounded).", "6 C06"),
  "C07": ("proof", "Postconditions of handleABSEvent for the two bidirectional arms: the first emitted event goes to the controller and channel of the side the shaped value is on, the other side gets an explicit 0 unless it is already marked zeroed, and with the invariant zeroedOK (a controller marked zeroed is 0 at the receiver; ghost receiver state updated at every send) at most one side is non-zero; the learning gate transmits nothing and leaves the marks untouched. Holds for every pre-state, hence for crossing the centre in one jump.", "6 C07"),
  "C08": ("proof", "Postconditions of handleABSEvent for the key-emulation arm in terms of the value the threshold switch sees: on once at >= 0.5 with the transposed configured note and channel, off below 0.49, unchanged in between, never both directions tracked, silent in an unconfigured direction; AnalogNoteOn/AnalogNoteOff contracts pin the Note Off to the tracked pair; ParseData's store-site assertions cover note_negative and the offsets.", "6 C08"),
- "C09": ("proof", "Zero-annotation safety sweep (nil dereference, nil-map update, index/slice bounds, division by zero, reachable panic) over ParseData, TomlKeyToEvCode, StringToNote, readDeviceConfig and LoadHIDIConfig with the decoder's output havocked to ANY value of the target struct (a superset of what any file content decodes to); all loops are range loops (structural termination). The third-party decoder itself is an assumption.", "6 C09"),
+ "C09": ("proof", "Zero-annotation safety sweep (nil dereference, nil-map update, index/slice bounds, division by zero, reachable panic) over ParseData, TomlKeyToEvCode, StringToNote, readDeviceConfig and LoadHIDIConfig with the decoder's output havocked to ANY value of the target struct (a superset of what any file content decodes to); all loops are range loops (structural termination). The third-party decoder is treated as 'returns any value, or panics': every call of it carries the obligation that the calling function has installed a deferred recover (it does panic on dates where numbers are expected - finding F17, repaired). That the decoder does not hang is assumed and exercised by the bounded stand-in c09_illtyped (real ParseData over ~20 000 near-valid files; labelled bounded).", "6 C09"),
  "C10": ("proof", "Per-entry fidelity and range clauses are assertions at the map-store sites of ParseData (selected by static map type), top-level fields, defaults (velocity 0 -> 64, channel 1..16, existing default mapping), colours and cfgOK are postconditions, name fidelity of the mapping list is a loop invariant; strict decoding is a typestate obligation on the Decode call. 'What the file states' is taken at the decoded struct (decoder assumed).", "6 C10"),
  "C11": ("proof", "StringToNote is proved equivalent to the 128-name specification (accepts exactly the valid names, returns the specified number) over a byte-level string model, with the regular expression's behaviour as an assumed contract pinned to the exact pattern (hv refuses it for any other pattern); NoteToPitch/NoteToOctave contracts plus round-trip/injectivity lemmas. A bounded stand-in runs the real functions over all short strings to guard that one assumption (labelled bounded).", "6 C11"),
  "C12": ("proof", "FindConfig's postcondition is the four-step lookup order per device type for every presence combination; the walk callback is proved total under Walk's calling convention, to leave the map unchanged when a file fails to parse and to add exactly the parsed entry otherwise; LoadDeviceConfigs is proved to load each of the four directories into its own map.", "6 C12"),
